@@ -6,7 +6,7 @@ from . import roles
 from . import writers as W
 from .mir import Site, Unverifiable, callee_is, callee_path, const_int, op_fn, op_local, op_place, place_fields
 
-CFGS = {"quick": ["default", "all"], "thorough": ["default", "all", "libtest", "nodefault", "json", "junit"]}
+CFGS = {"quick": ["default", "all", "zoo:default"], "thorough": ["default", "all", "libtest", "nodefault", "json", "junit", "zoo:default"]}
 
 WITNESS = ["WriterOrder"]  # doctests of engine/witness run in the thorough tier
 
@@ -486,5 +486,16 @@ def r8(F, R):
     R.floor(4)
 
 
-RULES = [("R8", r8, None), ("R1", r1, None), ("R2", r2, None), ("R3", r3, None), ("R4", r4, None), ("R5", r5, ["all", "libtest"]),
-         ("R6", r6, None), ("R7", r7, None)]
+_LIB = ["default", "all", "libtest", "nodefault", "json", "junit"]
+
+
+def r9(F, R):
+    """"... it had a failed step ...": a step function that returns `Err` — however its `Result` type is spelled (type alias,
+    `io::Result`) — makes the step fail: in the macro expansion of the zoo's functions the returned value goes through
+    `unwrap_or_else(panic)` (= C19.R2; checked on the verif-owned zoo crate's MIR)."""
+    from . import c19
+    c19.r2(F, R)
+
+
+RULES = [("R8", r8, _LIB), ("R1", r1, _LIB), ("R2", r2, _LIB), ("R3", r3, _LIB), ("R4", r4, _LIB), ("R5", r5, ["all", "libtest"]),
+         ("R6", r6, _LIB), ("R7", r7, _LIB), ("R9", r9, ["zoo:default"])]
